@@ -1,6 +1,7 @@
 package vc
 
 import (
+	"go/token"
 	"fmt"
 	"go/types"
 	"strings"
@@ -107,6 +108,13 @@ func verifyFuncMode(p *Program, fc *FuncContract, prop string, unroll int) (u *U
 		cx.ghosts[g.Name] = x.freshOfTypeName(g.Name, g.Type, fi.Pkg.Name)
 		gt := cx.ghosts[g.Name]
 		u.Ghosts = append(u.Ghosts, NamedTerm{Name: g.Name, Term: gt, GoT: x.resolveTypeName(g.Type, fi.Pkg.Name).goT, CT: g.Type})
+	}
+	for _, c := range fc.Counters {
+		cv := types.NewVar(token.NoPos, fi.Pkg.Types, "$count_"+c.Name, types.Typ[types.Int])
+		cx.counters = append(cx.counters, cv)
+		z := IntLit(0)
+		z.GoT = types.Typ[types.Int]
+		env.vars[cv] = z
 	}
 	cx.oldEnv = env.clone()
 	// requires
